@@ -77,6 +77,9 @@ impl ObjString {
     pub fn is_empty(&self) -> (r: bool) ensures r == (self.blen() == 0) { unimplemented!() }
     #[verifier::external_body]
     pub fn as_bytes(&self) -> (r: &[u8]) ensures r@ == self.bytes() { unimplemented!() }
+    // `s.chars().count()`: the number of characters = the number of character boundaries below the length (std, trusted)
+    #[verifier::external_body]
+    pub fn char_count(&self) -> (r: usize) ensures r as int == nb(*self, self.blen() as int), r <= self.blen(), r <= isize::MAX { unimplemented!() }
 
     //@fn file=yarel/src/object.rs path=ObjString::validate_char_boundary ret=r props=C13,C02
     //@  rewrite R1
@@ -231,6 +234,40 @@ pub open spec fn occurs_at(s: ObjString, sub: ObjString, i: int) -> bool {
 //@  loop 0 invariant forall|j: int| start <= j < start + it.index@ ==> !occurs_at(string.obj(), substring.obj(), j)
 //@  loop 0 invariant vm.slot(0) == old(vm).slot(0) && vm.slot(1) == old(vm).slot(1) && vm.slot(2) == old(vm).slot(2)
 //@  at loop0.start broadcast use axiom_cb; broadcast use axiom_bytes_len; broadcast use axiom_utf8_match_on_boundaries; broadcast use axiom_value_int_number;
+//@end
+
+
+// number of character boundaries in [0, i): the index of the character that starts at a boundary i
+pub open spec fn nb(s: ObjString, i: int) -> int
+    decreases i
+{
+    if i <= 0 { 0 } else { nb(s, i - 1) + (if s.is_cb(i - 1) { 1int } else { 0int }) }
+}
+proof fn lemma_nb_bounds(s: ObjString, i: int)
+    requires 0 <= i
+    ensures 0 <= nb(s, i) <= i
+    decreases i
+{
+    if i > 0 { lemma_nb_bounds(s, i - 1); }
+}
+
+//@fn file=yarel/src/core.rs path=string_char_byte_index ret=r props=C13,C02
+//@  rewrite R1
+//@  subst ".try_as_obj_string().expect(\"Expected ObjString.\")" => ".try_as_obj_string().unwrap()"
+//@  subst "string.as_str().chars().count()" => "string.as_str().char_count()"
+//@  subst "Value::Number(i as f64)" => "number_of_usize(i)"
+//@  requires old(vm).slot(1) is ObjString
+//@  ensures r matches Err(e) ==> e.kind is IndexError || e.kind is TypeError || e.kind is ValueError
+//@  ensures r matches Ok(v) ==> num_args == 1 && (old(vm).slot(1) matches Value::ObjString(s) && value_int(old(vm).slot(0)) matches Some(n) && value_int(v) matches Some(i) && { let cnt = nb(s.obj(), s.obj().blen() as int); 0 <= norm(n, cnt) < cnt && 0 <= i < s.obj().blen() && s.obj().is_cb(i) && nb(s.obj(), i) == norm(n, cnt) })
+//@  ensures num_args == 1 && (old(vm).slot(1) matches Value::ObjString(s) && value_int(old(vm).slot(0)) matches Some(n) && 0 <= norm(n, nb(s.obj(), s.obj().blen() as int)) < nb(s.obj(), s.obj().blen() as int)) ==> r is Ok
+//@  at body.start broadcast use axiom_cb; broadcast use axiom_value_int_number;
+//@  loop 0 iter it
+//@  loop 0 invariant it.snapshot.start == 0, it.snapshot.end == string.obj().blen() + 1, string.obj().blen() <= isize::MAX
+//@  loop 0 invariant char_count as int == nb(string.obj(), it.index@ as int), char_count <= char_index, char_index < nb(string.obj(), string.obj().blen() as int)
+//@  loop 0 invariant old(vm).slot(1) == Value::ObjString(string), num_args == 1
+//@  loop 0 invariant value_int(old(vm).slot(0)) matches Some(n) && norm(n, nb(string.obj(), string.obj().blen() as int)) == char_index
+//@  at loop0.start proof { lemma_nb_bounds(string.obj(), i as int); axiom_cb_ends(string.obj()); }
+//@  before_stmt "Err(verif_error(" proof { axiom_cb_ends(string.obj()); assert(nb(string.obj(), string.obj().blen() as int + 1) == nb(string.obj(), string.obj().blen() as int) + 1); }
 //@end
 
 // ------------------------------------------------------------------ C18 / C13: native iterators
